@@ -1627,11 +1627,13 @@ nni_pipe_start(nni_pipe *p)
 
 	// NB: starting the pipe can actually cause the pipe
 	// to be deallocated before this returns (if it is rejected)
+	nni_pipe_start_begin(p);
 	if (p->p_listener) {
 		listener_start_pipe(p->p_listener, p);
 	} else if (p->p_dialer) {
 		dialer_start_pipe(p->p_dialer, p);
 	}
+	nni_pipe_start_end(p);
 }
 
 void
